@@ -12,7 +12,9 @@ from harness import common  # noqa: E402
 
 
 def loader(pid):
-    return importlib.import_module('harness.props.' + pid.lower())
+    from harness import routes
+    # the value-level checks carry the shared route layer (harness/routes.py): case kind `route`
+    return routes.wrap(importlib.import_module('harness.props.' + pid.lower()))
 
 
 if __name__ == '__main__':
